@@ -3,9 +3,10 @@
    (PhyBo._get_GLS), GainLoss/TopDown.v (PhyBo._get_GLS_top_down); replay semantics and
    the checker run on implementation outputs: GainLoss/Replay.v. *)
 From Coq Require Import ZArith List Bool.
-From LV Require Import GainLoss.RoseTree GainLoss.Replay GainLoss.ReplayProofs GainLoss.GetGls
+From LV Require Import GainLoss.RoseTree GainLoss.Replay GainLoss.ReplayProofs GainLoss.ReplayPathProofs GainLoss.GetGls
   GainLoss.GetGlsProofs GainLoss.GetGlsTopProofs GainLoss.GetGLSr GainLoss.GetGLSrProofs GainLoss.TopDown
-  GainLoss.TopDownProofs GainLoss.GetGlsDefinedProofs GainLoss.GainLossExec.
+  GainLoss.TopDownProofs GainLoss.GetGlsDefinedProofs GainLoss.PhyBoGlue GainLoss.PhyBoGlueProofs
+  GainLoss.GetGlsNoDupProofs GainLoss.GainLossExec.
 Import ListNotations.
 Local Open Scope Z_scope.
 
@@ -24,6 +25,15 @@ Theorem C07_get_gls_replays :
     reproduces md pat t ev.
 Proof. exact get_gls_replays. Qed.
 Print Assumptions C07_get_gls_replays.
+
+(* no node carries two events in the returned scenario (so the replay is unambiguous, and the
+   association lists of the model are a faithful picture of the Python dictionaries) *)
+Theorem C07_get_gls_events_distinct :
+  forall (pat : list (Z * Z)) (t : tree) (gpl g l : Z) (push : bool) (md : Z) (ev : list (Z * Z)),
+    NoDup (names t) -> pattern_known pat t -> (md = 0 \/ md = -1) ->
+    get_gls pat t gpl g l push md = Ok ev -> NoDup (keys ev).
+Proof. exact get_gls_events_nodup. Qed.
+Print Assumptions C07_get_gls_events_distinct.
 
 (* and get_gls does return a scenario: for every pattern with at least one presence and gpl >= 0
    no node is left without a scenario (the code's min() never sees an empty dictionary) *)
@@ -70,6 +80,29 @@ Theorem C07_top_down_replays :
 Proof. exact top_down_replays_two_presences. Qed.
 Print Assumptions C07_top_down_replays.
 
+(* the wordlist-driven entry point, per cognate set: PhyBo.get_GLS answers a pattern with exactly one
+   presence by the single gain at that taxon and otherwise calls the function of the chosen mode
+   (the per-pattern cache returns the same function of the pattern).  Guards: the pattern lists every
+   taxon once, only taxa that are tips, and gives every tip a state in {1,0,-1} - which is how PhyBo
+   builds self.paps[cog] against self.taxa.  In all three modes what is stored reproduces the pattern. *)
+Theorem C07_phybo_get_GLS_replays :
+  forall (pat : list (Z * Z)) (t : tree) (m : glmode) (gpl : Z) (push : bool) (md : Z) (ev : list (Z * Z)),
+    NoDup (names t) -> pattern_known pat t -> NoDup (keys pat) -> (forall n s, In (n, s) pat -> In n (tips t)) ->
+    (md = 0 \/ md = -1) ->
+    phybo_per_cog pat t m gpl push md = Ok ev ->
+    reproduces md pat t ev.
+Proof. exact phybo_replays. Qed.
+Print Assumptions C07_phybo_get_GLS_replays.
+
+(* what [replay] means, declaratively: leaf by leaf (root-to-leaf paths in tip order), the state is
+   decided by the nearest node on the path, the leaf included, that carries an event - present if it
+   is a gain, absent if it is a loss - and the leaf is absent if no node on its path carries one *)
+Theorem C07_replay_is_nearest_event :
+  forall (t : tree) (ev : list (Z * Z)),
+    replay false ev t = map (fun p => (leaf_of p, path_state false ev p)) (paths t).
+Proof. exact replay_paths. Qed.
+Print Assumptions C07_replay_is_nearest_event.
+
 (* the checker that is run on every implementation output decides [reproduces] *)
 Theorem C07_replay_checker_correct :
   forall md pat t ev, replay_okb md pat t ev = true <-> reproduces md pat t ev.
@@ -114,3 +147,8 @@ Example ex_topdown_single_presence :
   top_down [(6, 0); (5, 0); (4, 0); (3, 1); (2, 0); (1, 0)] ex_tree 2 0 = Ok []
   /\ replay_okb 0 [(6, 0); (5, 0); (4, 0); (3, 1); (2, 0); (1, 0)] ex_tree [] = false.
 Proof. vm_compute. split; reflexivity. Qed.
+
+(* the PhyBo glue: a single presence is answered by the shortcut in every mode *)
+Example ex_phybo_singleton :
+  phybo_per_cog [(6, 0); (5, 0); (4, 0); (3, 1); (2, -1); (1, 0)] ex_tree (GTopDown 2) 1 true (-1) = Ok [(3, 1)].
+Proof. vm_compute. reflexivity. Qed.
